@@ -232,7 +232,7 @@ def struct_rules(ctx, item):
         det = 'no `#[repr(C <packed|align>)]` attribute of the expected shape before the struct'
     before = s.split(' struct ')[0] if ' struct ' in s else ''
     ok = ok and m is not None and m.start() < len(before)
-    ctx.ob(['C01', 'C02', 'C17'], 'R-TMPL', 'struct|repr', ok,
+    ctx.ob(['C01', 'C02', 'C17', 'C04', 'C06'], 'R-TMPL', 'struct|repr', ok,
            'the struct is always #[repr(C, ..)]; packed types get `, packed` and no align, all others `, align(N)` with N = the resolved alignment of this very item, printed unsuffixed: %s' % det, where)
     # derives
     m = re.search(r'^\s*ALT(\d+)\{  \|\| # \[ derive \( REP(\d+)\( ⟨V(\d+):([^⟩]*)⟩ \),\* \) \] \}', s)
